@@ -336,6 +336,10 @@ func doProvide(rt *RT, sc scopeAPI, op Op, out *OpOut) error {
 		if len(o.As) > 0 || len(o.AsRaw) > 0 {
 			var as []interface{}
 			for _, a := range o.As {
+				if o.AsNil {
+					as = append(as, reflect.Zero(reflect.PtrTo(rtype(a))).Interface())
+					continue
+				}
 				as = append(as, asPtr(a))
 			}
 			for _, a := range o.AsRaw {
@@ -547,6 +551,8 @@ func rawAs(a string) interface{} {
 	case "iface":
 		var i I0 = &T0{}
 		return i
+	case "nilI0":
+		return (*I0)(nil)
 	case "ptrerr":
 		return new(error)
 	case "ptrany":
